@@ -449,8 +449,10 @@ class Daemon(object):
                             result = method(*vargs, **kwargs)  # this is the actual method call to the Pyro object
                         except Exception as xv:
                             self.methodcall_error_handler(self, current_context.client_sock_addr, method, vargs, kwargs, xv)
-                            xv._pyroTraceback = errors.format_traceback(detailed=config.DETAILED_TRACEBACK)
-                            data.append(core._ExceptionWrapper(xv))
+                            tblines = errors.format_traceback(detailed=config.DETAILED_TRACEBACK)
+                            # wrap a generic PyroError instead if the exception itself cannot be serialized
+                            sendable, _ = self._serializeException(serializer, xv, tblines)
+                            data.append(core._ExceptionWrapper(sendable))
                             break  # stop processing the rest of the batch
                         else:
                             data.append(result)    # note that we don't support streaming results in batch mode
@@ -618,10 +620,10 @@ class Daemon(object):
         else:
             raise errors.DaemonError("invalid instancemode in registered class")
 
-    def _sendExceptionResponse(self, connection, seq, serializer_id, exc_value, tbinfo, flags=0, annotations=None):
-        """send an exception back including the local traceback info"""
+    @staticmethod
+    def _serializeException(serializer, exc_value, tbinfo):
+        """serialize an exception including the local traceback info; returns the exception that was serialized and the data"""
         exc_value._pyroTraceback = tbinfo
-        serializer = serializers.serializers_by_id[serializer_id]
         try:
             data = serializer.dumps(exc_value)
         except Exception:
@@ -631,6 +633,12 @@ class Daemon(object):
             exc_value = errors.PyroError(msg)
             exc_value._pyroTraceback = tbinfo
             data = serializer.dumps(exc_value)
+        return exc_value, data
+
+    def _sendExceptionResponse(self, connection, seq, serializer_id, exc_value, tbinfo, flags=0, annotations=None):
+        """send an exception back including the local traceback info"""
+        serializer = serializers.serializers_by_id[serializer_id]
+        exc_value, data = self._serializeException(serializer, exc_value, tbinfo)
         flags |= protocol.FLAGS_EXCEPTION
         annotations = dict(annotations or {})
         annotations.update(self.annotations())
